@@ -129,3 +129,17 @@ UNITS.append(dict(name='C17.pcnew', props=['C17'], kind='P', route='stub', entry
                 dict(name='dbus_pending_call_allocate_data_slot/free_data_slot', file=PC, status='inlined', note='real wrappers'),
                 dict(name='_dbus_timeout_new, _dbus_data_slot_allocator_alloc/_free, dbus_malloc0/dbus_free, _dbus_connection_ref_unlocked', file='dbus', status='stub', note='record interval/handler/data; each allocation may fail; counted')],
      assumptions=[SEQ, 'timeout_milliseconds >= 0 or == -1 (the function\'s entry assertion, precondition)']))
+
+UNITS.append(dict(name='C17.do_iteration', props=['C17'], kind='P', route='stub', entry='harness',
+     tus=[dict(file=CONN, include_as='VERIF_TU')], harness='harness/c17_doiter.c',
+     replace_calls={'_dbus_connection_last_unref': 'verif_stub_connection_last_unref', '_dbus_pending_call_get_completed_unlocked': 'verif_stub_pc_completed',
+                    '_dbus_pending_call_get_reply_serial_unlocked': 'verif_stub_pc_serial', '_dbus_connection_peek_for_reply_unlocked': 'verif_stub_peek_for_reply',
+                    '_dbus_transport_do_iteration': 'verif_stub_transport_do_iteration'},
+     unwind=6, timeout=300, expect_s=10, must_have=['post1', 'post2', 'post3', 'post5'],
+     functions=[dict(name='_dbus_connection_do_iteration_unlocked', file=CONN, status='enforced', contract='transport entered only by the I/O-path holder and only if, after the lock was last re-acquired, the awaited call is neither completed nor has its reply queued; path released; lock held at exit'),
+                dict(name='_dbus_connection_acquire_io_path, _dbus_connection_release_io_path, _dbus_connection_unlock, _dbus_connection_ref/unref_unlocked', file=CONN, status='inlined', note='real code'),
+                dict(name='_dbus_rmutex_lock', file='dbus/dbus-threads.c', status='stub', note='environment step (rely): other threads may have completed the call / queued or taken the reply while the lock was not held'),
+                dict(name='_dbus_condvar_wait, _dbus_condvar_wait_timeout', file='dbus/dbus-threads.c', status='stub', note='I/O path state arbitrary on return; the untimed wait loop is closed by an invariant cut (partial correctness)'),
+                dict(name='_dbus_pending_call_get_completed_unlocked/_get_reply_serial_unlocked, _dbus_connection_peek_for_reply_unlocked, _dbus_transport_do_iteration', file='dbus/dbus-pending-call.c, ' + CONN + ', dbus/dbus-transport.c', status='stub', note='ghost shared state; lock-held preconditions checked')],
+     assumptions=['rely condition on other threads: they change the awaited call only from not-completed to completed, queue or take its reply, and take or free the I/O path, and only while this thread does not hold the connection lock',
+                  'termination of the untimed wait for the I/O path is not proved', 'expired_messages is empty at entry (loop of _dbus_connection_unlock unwound completely under that precondition)']))
